@@ -182,10 +182,10 @@ def sendCmd {σ α} (dev : Dev σ) (p : Profile) (scdAs : Ack.AckPacket → Ack.
   -- `if cmd_len > self.config.maximum_cmd_length as usize { return Err(..) }`
   if cmdLen > s.h.cfg.maxCmd then (s, .err .io) else
   -- `self.next_req_id = self.next_req_id.wrapping_add(1)`: one id per command, whatever happens
-  let s : St σ := { s with h := { s.h with nextReqId := (s.h.nextReqId + 1) % 2 ^ 16 } }
   let ackLen := c.maximumAckLen
-  let need := max cmdLen ackLen
-  let s : St σ := if s.h.bufLen < need then { s with h := { s.h with bufLen := need } } else s
+  -- `if self.buffer.len() < max(cmd_len, ack_len) { self.buffer.resize(max(cmd_len, ack_len), 0) }`
+  let s : St σ := { s with h := { s.h with nextReqId := (s.h.nextReqId + 1) % 2 ^ 16,
+                                           bufLen := max s.h.bufLen (max cmdLen ackLen) } }
   match c.serializeSink id s.h.bufLen with
   | .panic => (s, .panic)
   | .err e => (s, .err (.ofCmd e))
@@ -381,15 +381,15 @@ def initializeConfig {σ} (dev : Dev σ) (p : Profile) (s : St σ) : Out σ Unit
               ({ s with h := { s.h with cfg := { s.h.cfg with
                   timeoutMs := timeout, maxCmd := maxCmd, maxAck := maxAck } } }, .ok ())
 
-/-- one transport control request; error → `ControlError` through `From<u3v::Error>`. -/
+/-- only SET_FEATURE(ENDPOINT_HALT) (`set_halt`) takes a timeout -/
+def ctlTimeout (cfg : Config) : CtlReq → Nat
+  | .setHaltIn => cfg.timeoutMs
+  | .setHaltOut => cfg.timeoutMs
+  | _ => 0
+
 def ctlReq {σ} (dev : Dev σ) (s : St σ) (r : CtlReq) : Out σ Unit :=
   let (d, e) := dev.ctl s.d r
-  -- only SET_FEATURE(ENDPOINT_HALT) (`set_halt`) takes a timeout
-  let t := match r with
-    | .setHaltIn => s.h.cfg.timeoutMs
-    | .setHaltOut => s.h.cfg.timeoutMs
-    | _ => 0
-  let s := ({ s with d := d } : St σ).push (.ctl r t e)
+  let s := ({ s with d := d } : St σ).push (.ctl r (ctlTimeout s.h.cfg r) e)
   match e with
   | some e => (s, .err (.ofUsb e))
   | none => (s, .ok ())
